@@ -25,6 +25,8 @@ def oracle_hop_rule(args):
     mass, v, d = np.array(c["mass"]), np.array(c["v"]), np.array(c["d"])
     u = d / np.linalg.norm(d)
     problems = []
+    if r.get("pre_problem"):
+        problems.append(r["pre_problem"])
     if marg >= 1e-12 and bool(r["accepted"]) != want:
         problems.append("accepted=%d but the rule says %d (margin %.3g)" % (r["accepted"], want, marg))
     if not np.all(np.isfinite(r["v"])):
